@@ -24,6 +24,7 @@ inductive Err where
   | tooFew       -- compact: two or more source objects required
   | badParts     -- harness-supplied object partition rejected by the model
   | addDelConflict | deleteConflict | emptyDiff | noAncestor | self
+  | conflict     -- ErrCommitFailed: exceeded max update attempts to branch tip
   | revertEmpty
   | missingFile
   deriving DecidableEq, Repr, Inhabited
@@ -34,7 +35,7 @@ def Err.toStr : Err → String
   | .badParent => "bad-parent" | .noBranch => "no-branch" | .branchExists => "branch-exists"
   | .noCommit => "no-commit" | .empty => "empty" | .tooFew => "too-few" | .badParts => "bad-parts"
   | .addDelConflict => "add-del-conflict" | .deleteConflict => "delete-conflict"
-  | .emptyDiff => "empty-diff" | .noAncestor => "no-ancestor" | .self => "self"
+  | .emptyDiff => "empty-diff" | .noAncestor => "no-ancestor" | .self => "self" | .conflict => "commit-failed"
   | .revertEmpty => "revert-empty" | .missingFile => "missing-file"
 
 /-- Metadata of a data object (`data.Object` without `Size`). -/
